@@ -232,7 +232,8 @@ std::ostream& instance_t::print_parameters(std::ostream& os) const
 
 std::ostream& instance_t::print_arguments(std::ostream& os) const
 {
-    auto b = std::begin(parameters), e = std::end(parameters);
+    // unbound parameters come first and have no argument
+    auto b = std::begin(parameters) + std::min<size_t>(unbound, parameters.get_size()), e = std::end(parameters);
     if (b != e) {
         auto itr = mapping.find(*b);
         assert(itr != std::end(mapping));
